@@ -48,35 +48,57 @@ Definition chan_error_at (act : N) (tr : trace) : bool :=
 
 Record tstate := mkT {
   t_tab : stab; t_closing : bool; t_dead : bool;
+  t_stopped : bool;   (* Stop was called: nothing can be answered any more, but stream ids are still policed *)
   t_q : list (Z * fkind);
   t_fails : list failure
 }.
 
 Definition tfail (s : tstate) (f : list failure) : tstate :=
-  mkT (t_tab s) (t_closing s) (t_dead s) (t_q s) (t_fails s ++ f).
+  mkT (t_tab s) (t_closing s) (t_dead s) (t_stopped s) (t_q s) (t_fails s ++ f).
 
 Definition tables_step (tr : trace) (s : tstate) (e : N * ev) : tstate :=
   let '(act, e) := e in
   match e with
-  | Emit C2S _ id k true => mkT (t_tab s) (t_closing s) (t_dead s) (t_q s ++ [(id, k)]) (t_fails s)
-  | Stim StFail _ _ _ | Stim StCtxEnd _ _ _ | Stim StMarshal _ _ _ => mkT (t_tab s) (t_closing s) true [] (t_fails s)
-  | Stim StShutdown _ _ _ => mkT (t_tab s) true (t_dead s) (t_q s) (t_fails s)
-  | Stim StStop _ _ _ => mkT (t_tab s) true true (t_q s) (t_fails s)   (* Stop half-closes: nothing can be answered any more *)
-  | ServeRet _ _ _ => mkT (t_tab s) (t_closing s) true (t_q s) (t_fails s)
-  | Emit S2C _ id (KClose _ _) _ => mkT (st_remove (t_tab s) id) (t_closing s) (t_dead s) (t_q s) (t_fails s)
+  | Emit C2S _ id k true => mkT (t_tab s) (t_closing s) (t_dead s) (t_stopped s) (t_q s ++ [(id, k)]) (t_fails s)
+  | Stim StFail _ _ _ | Stim StCtxEnd _ _ _ | Stim StMarshal _ _ _ => mkT (t_tab s) (t_closing s) true (t_stopped s) [] (t_fails s)
+  | Stim StShutdown _ _ _ => mkT (t_tab s) true (t_dead s) (t_stopped s) (t_q s) (t_fails s)
+  | Stim StStop _ _ _ => mkT (t_tab s) true (t_dead s) true (t_q s) (t_fails s)   (* Stop half-closes: nothing can be answered any more *)
+  | ServeRet _ _ _ => mkT (t_tab s) (t_closing s) true (t_stopped s) (t_q s) (t_fails s)
+  | Emit S2C _ id (KClose _ _) _ => mkT (st_remove (t_tab s) id) (t_closing s) (t_dead s) (t_stopped s) (t_q s) (t_fails s)
   | Deliver C2S _ 1 =>
       match t_q s with
       | [] => s
       | (id, k) :: rest =>
-          let s := mkT (t_tab s) (t_closing s) (t_dead s) rest (t_fails s) in
+          let s := mkT (t_tab s) (t_closing s) (t_dead s) (t_stopped s) rest (t_fails s) in
           if t_dead s then s else
+          if t_stopped s then
+            (* only the tunnel-level verdicts remain observable *)
+            match k with
+            | KNew rpc m rev _ _ =>
+                let '(tab', r) := st_create (t_tab s) id (t_closing s) rev (classify_method rpc m) in
+                let s := mkT tab' (t_closing s) (t_dead s) (t_stopped s) (t_q s) (t_fails s) in
+                match r with
+                | CTunnelErr =>
+                    let s := mkT (t_tab s) (t_closing s) true (t_stopped s) (t_q s) (t_fails s) in
+                    if ended_with_error_at act tr then s else tfail s (fl 811 act id 1)
+                | _ => s
+                end
+            | _ =>
+                match st_get (t_tab s) id with
+                | GTunnelErr =>
+                    let s := mkT (t_tab s) (t_closing s) true (t_stopped s) (t_q s) (t_fails s) in
+                    if ended_with_error_at act tr then s else tfail s (fl 815 act id 1)
+                | _ => s
+                end
+            end
+          else
           match k with
           | KNew rpc m rev _ _ =>
               let '(tab', r) := st_create (t_tab s) id (t_closing s) rev (classify_method rpc m) in
-              let s := mkT tab' (t_closing s) (t_dead s) (t_q s) (t_fails s) in
+              let s := mkT tab' (t_closing s) (t_dead s) (t_stopped s) (t_q s) (t_fails s) in
               match r with
               | CTunnelErr =>
-                  let s := mkT (t_tab s) (t_closing s) true (t_q s) (t_fails s) in
+                  let s := mkT (t_tab s) (t_closing s) true (t_stopped s) (t_q s) (t_fails s) in
                   if ended_with_error_at act tr then s else tfail s (fl 811 act id 0)
               | CReject code =>
                   let ok := existsb (fun e => match e with
@@ -98,7 +120,7 @@ Definition tables_step (tr : trace) (s : tstate) (e : N * ev) : tstate :=
           | _ =>
               match st_get (t_tab s) id with
               | GTunnelErr =>
-                  let s := mkT (t_tab s) (t_closing s) true (t_q s) (t_fails s) in
+                  let s := mkT (t_tab s) (t_closing s) true (t_stopped s) (t_q s) (t_fails s) in
                   if ended_with_error_at act tr then s else tfail s (fl 815 act id 0)
               | _ => if ended_with_error_at act tr then tfail s (fl 816 act id 3) else s
               end
@@ -110,7 +132,7 @@ Definition tables_step (tr : trace) (s : tstate) (e : N * ev) : tstate :=
 (* prompt processing is only guaranteed with flow control (no parked loop) *)
 Definition mon_tables (c : cfg) (tr : trace) : list failure :=
   if c_raws c || negb (expect_fc c) then []
-  else let tr := tunnel0 tr in t_fails (fold_left (tables_step tr) tr (mkT stab0 false false [] [])).
+  else let tr := tunnel0 tr in t_fails (fold_left (tables_step tr) tr (mkT stab0 false false false [] [])).
 
 (* ---------- client side: frames for ids the client never allocated ---------- *)
 Record cstate := mkC { c_lastid : Z; c_made : bool; c_deadc : bool; c_q : list (Z * fkind); c_first : bool; c_fails : list failure }.
